@@ -825,7 +825,8 @@ func (c *collection) validateDependencies() error {
 				continue
 			}
 
-			if _, isReserved := reservedTypes[dep.Type]; isReserved {
+			// The built-in injectables are provided for unkeyed requests only
+			if _, isReserved := reservedTypes[dep.Type]; isReserved && dep.Key == nil {
 				continue
 			}
 
